@@ -433,3 +433,21 @@ Lemma strict_bpromo l r tc rt t : bpromo implicit_strict l r tc rt = Some t -> b
 Proof.
   intros H. destruct l, r, tc as [[]|], rt as [[]|]; vm_compute in H; try discriminate H; vm_compute; exact H.
 Qed.
+
+(* ---- the promotion without required type is symmetric on the code's table, so If.validate's operand swap changes nothing:
+   the code's rule and the specification's rule are the same function *)
+Lemma bpromo_none_sym l r : bpromo implicit_code l r None None = bpromo implicit_code r l None None.
+Proof. destruct l, r; vm_compute; reflexivity. Qed.
+
+Theorem ctype_code_is_spec G c : ctype_code G c = ctype_spec G c.
+Proof.
+  unfold ctype_code, ctype_spec.
+  induction c as [n|w|op a IHa b IHb|op a IHa|a IHa b IHb d IHd|a IHa b IHb|a IHa b IHb d IHd|a IHa l|a IHa l|a IHa n|a IHa n|a IHa st ln];
+    cbn [ctype]; try reflexivity;
+    try rewrite IHa; try rewrite IHb; try rewrite IHd; try reflexivity.
+  destruct (ctype implicit_code false G a) as [tc|]; [|reflexivity].
+  destruct (ctype implicit_code false G b) as [tt|]; [|reflexivity].
+  destruct (ctype implicit_code false G d) as [te|]; [|reflexivity].
+  cbn [obind]. destruct (ty_eqb tc TBoolean); [|reflexivity].
+  destruct (true && is_lit b && negb (is_lit d)); cbn [andb]; [apply bpromo_none_sym | reflexivity].
+Qed.
